@@ -246,6 +246,19 @@ func siteMatches(p *Program, pat string, in ssa.Instruction) (string, bool) {
 			}
 		}
 		return "call " + short, true
+	case "lookup":
+		// `lookup KEYPATTERN`: a map read whose key has a matching access path
+		lk, ok := in.(*ssa.Lookup)
+		if !ok {
+			return "", false
+		}
+		if _, isMap := lk.X.Type().Underlying().(*types.Map); !isMap {
+			return "", false
+		}
+		if !pathMatches(valuePath(lk.Index), f[1]) {
+			return "", false
+		}
+		return "lookup of " + valuePath(lk.Index) + " in " + valuePath(lk.X), true
 	case "alloc":
 		a, ok := in.(*ssa.Alloc)
 		if !ok {
@@ -573,6 +586,9 @@ func valuePath(v ssa.Value) string {
 		st := x.X.Type().Underlying().(*types.Struct)
 		return valuePath(x.X) + "." + st.Field(x.Field).Name()
 	case *ssa.Extract:
+		if ta, ok := x.Tuple.(*ssa.TypeAssert); ok && x.Index == 0 {
+			return valuePath(ta)
+		}
 		return fmt.Sprintf("%s#%d", valuePath(x.Tuple), x.Index)
 	case *ssa.Call:
 		if callee := x.Call.StaticCallee(); callee != nil {
@@ -595,6 +611,9 @@ func valuePath(v ssa.Value) string {
 		}
 		return "call " + valuePath(x.Call.Value) + "(" + strings.Join(as, ",") + ")"
 	case *ssa.MakeInterface:
+		return valuePath(x.X)
+	case *ssa.TypeAssert:
+		// x.(T): the asserted type is not part of the path (x.(T), ok := … and x.(T) read the same object)
 		return valuePath(x.X)
 	case *ssa.ChangeType:
 		return valuePath(x.X)
